@@ -76,7 +76,10 @@ func (session *BasicHttpSubSession) Write(b []byte) {
 			PayloadLength: uint64(len(b)),
 			Masked:        false,
 		}
-		session.write(MakeWsFrameHeader(wsHeader))
+		// frame header和payload必须作为一个整体入队(或者作为一个整体被丢弃)。
+		// 分成两次写时，发送队列满的瞬间可能只有其中一个入队成功，对端收到的websocket流就错位了
+		_, _ = session.conn.Writev(net.Buffers{MakeWsFrameHeader(wsHeader), b})
+		return
 	}
 	session.write(b)
 }
